@@ -217,6 +217,21 @@ def unwind (s : State) (t : Tid) : List MicroOp :=
 def afterRaise (s : State) : List Method :=
   if s.guarded then s.mainTodo.filter (fun m => m == .exit) else []
 
+/-- result of one statement of a thread: new shared state, rest of the thread's method,
+    and whether the statement raised -/
+structure Moved where
+  s : State
+  code : List MicroOp
+  raised : Bool
+
+/-- thread `t`, whose current method continues with `op :: rest`, executes `op` -/
+def threadStep (s : State) (t : Tid) (op : MicroOp) (rest : List MicroOp) : Option Moved :=
+  match execOp s t op with
+  | .blocked => none
+  | .ok s' => some { s := s', code := rest, raised := false }
+  | .ret s' => some { s := s', code := unwind s' t, raised := false }
+  | .raised s' => some { s := s', code := unwind s' t, raised := true }
+
 def stepMain (P : Protocol) (s : State) : Option State :=
   match s.mainCode with
   | [] =>
@@ -224,11 +239,11 @@ def stepMain (P : Protocol) (s : State) : Option State :=
     | [] => none
     | m :: rest => some { s with mainCode := P.code m, mainTodo := rest }
   | op :: rest =>
-    match execOp s .main op with
-    | .blocked => none
-    | .ok s' => some { s' with mainCode := rest }
-    | .ret s' => some { s' with mainCode := unwind s' .main }
-    | .raised s' => some { s' with mainCode := unwind s' .main, mainTodo := afterRaise s' }
+    match threadStep s .main op rest with
+    | none => none
+    | some m =>
+      some { m.s with mainCode := m.code,
+                      mainTodo := if m.raised then afterRaise m.s else m.s.mainTodo }
 
 /-- install the remaining code of timer thread `i`; a thread with nothing left is done -/
 def setCode (s : State) (i : Nat) (c : List MicroOp) : State :=
@@ -248,11 +263,9 @@ def stepTimer (s : State) (i : Nat) : Option State :=
       match r.code with
       | [] => some (setCode s i [])
       | op :: rest =>
-        match execOp s (.timer i) op with
-        | .blocked => none
-        | .ok s' => some (setCode s' i rest)
-        | .ret s' => some (setCode s' i (unwind s' (.timer i)))
-        | .raised s' => some (setCode s' i (unwind s' (.timer i)))
+        match threadStep s (.timer i) op rest with
+        | none => none
+        | some m => some (setCode m.s i m.code)
     else none
 
 inductive Action
@@ -369,5 +382,17 @@ def explore (P : Protocol) (maxFire : Nat) : Nat → State → List Action → N
         match step P s a with
         | some s' => explore P maxFire fuel s' (a :: pre) cap acc
         | none => acc) acc
+
+/-! ### The race of the legacy protocol, as a schedule -/
+
+/-- enter; update; then timer 1 (armed by update) fires, main runs all of `exit` (its
+    `cancel()` hits the timer whose callback already runs: no effect), finally the callback
+    runs: it cancels itself, creates timer 2 and starts it. -/
+def legacyRaceSchedule : List Action :=
+  List.replicate 11 Action.main ++ [Action.fire 1] ++ List.replicate 3 Action.main ++
+    List.replicate 5 (Action.timer 1)
+
+def legacyRaceFinal : State :=
+  runSchedule legacyProtocol (init [.enter, .update, .exit] true) legacyRaceSchedule
 
 end OQuPyVerif.Progress
